@@ -33,6 +33,8 @@ def _run_prog(st, src, argvs, Ws, tag, S=hid.GEN_STACK):
         lines, err = compile_case(src, W, S)
         if err:
             st.add('evaluations')
+            from ..cases import _must_be_well_typed
+            _must_be_well_typed(prog, src)
             st.viol(f'{tag}: well-typed program not compiled: {err[0]}: {err[1]}',
                     {'kind': 'conformance', 'src': src, 'prog': repr(prog), 'argv': list(argvs[0]), 'W': W, 'S': S,
                      'unchecked': False, 'tag': tag})
